@@ -172,11 +172,31 @@ def family_class(L, fam):
     return L.image.BlockImage if fam == "text" else L.image.KittyImage
 
 
+def apply_quirks(L, quirks):
+    """Unusual but legitimate environments, applied right after world.setup():
+      swap    the terminal reports its pixel dimensions swapped and the application has enabled the library's
+              workaround (enable_win_size_swap()) - cell size and everything derived from it are what they are
+              on a well-behaved terminal;
+      stdout  standard output is not the terminal (a pipe / file): only the tty's own descriptor knows the terminal
+              size, the shutil fallback would report *stdout* = (cols, rows) - the active terminal's size counts."""
+    if not quirks:
+        return
+    tty = world.W.tty
+    if quirks.get("swap"):
+        tty.swapped_px = True
+        tty.xpx, tty.ypx = tty.ypx, tty.xpx
+        L.ti.enable_win_size_swap()
+    if quirks.get("stdout"):
+        tty.stdout_size = tuple(quirks["stdout"])
+
+
 def set_env(L, term, cell, clear_cell_memo=False):
     """Resize / re-cell the virtual terminal in place (the tty object stays installed)."""
     tty = world.W.tty
     tty.cols, tty.rows = term
     tty.xpx, tty.ypx = (term[0] * cell[0], term[1] * cell[1]) if cell else (0, 0)
+    if getattr(tty, "swapped_px", False):
+        tty.xpx, tty.ypx = tty.ypx, tty.xpx
     if clear_cell_memo:
         # the cell-size memo is keyed by the terminal size only; its staleness is C15's subject
         L.utils._cell_size_cache[:] = [0] * 4
@@ -258,9 +278,12 @@ def report(col, case, fam, mode, api, problems):
         col.violation(dict(clause=clause, family=fam, mode=mode_name(mode), api=api), text, case)
 
 
-def grid_case(fam, term, cell, ratio, src, mode, frame, api):
-    return dict(kind="grid", family=fam, term=list(term), cell=list(cell) if cell else None, ratio=ratio,
-                src=list(src), mode=list(mode) if isinstance(mode, tuple) else mode, frame=list(frame), api=api)
+def grid_case(fam, term, cell, ratio, src, mode, frame, api, quirks=None):
+    d = dict(kind="grid", family=fam, term=list(term), cell=list(cell) if cell else None, ratio=ratio,
+             src=list(src), mode=list(mode) if isinstance(mode, tuple) else mode, frame=list(frame), api=api)
+    if quirks:
+        d["quirks"] = quirks
+    return d
 
 
 def run_grid_case(col, case):
@@ -271,7 +294,16 @@ def run_grid_case(col, case):
     mode = tuple(case["mode"]) if isinstance(case["mode"], list) else case["mode"]
     frame = tuple(case["frame"])
     world.setup("kitty", term[0], term[1], cell=cell)
-    eff = apply_ratio(L, ratio, cell) if fam == "text" else 0.5
+    apply_quirks(L, case.get("quirks"))
+    try:
+        eff = apply_ratio(L, ratio, cell) if fam == "text" else 0.5
+    except world.HarnessError:
+        raise
+    except Exception as e:
+        col.count()
+        col.violation(dict(clause="exception", family=fam, mode="set_cell_ratio", api=str(ratio),
+                           exc=type(e).__name__), f"set_cell_ratio({ratio}): {type(e).__name__}: {e}", case)
+        return
     geo = Geo(fam, term, cell, eff, src)
     img = family_class(L, fam)(pil(src))
     col.count()
@@ -294,12 +326,25 @@ def run_grid_case(col, case):
 
 def run_grid_item(col, item, P):
     """One (family, terminal, cell | ratio) environment x a chunk of sources: every frame x mode x API."""
-    fam, term, cell, ratio, srcs = item
+    fam, term, cell, ratio, srcs = item[:5]
+    quirks = item[5] if len(item) > 5 else None
     L = world.load()
     world.setup("kitty", term[0], term[1], cell=cell)
-    eff = apply_ratio(L, ratio, cell) if fam == "text" else 0.5
+    apply_quirks(L, quirks)
+    try:
+        eff = apply_ratio(L, ratio, cell) if fam == "text" else 0.5
+    except world.HarnessError:
+        raise
+    except Exception as e:      # e.g. auto cell ratio "unsupported" on a terminal that does report its cell size
+        col.count()
+        col.violation(dict(clause="exception", family=fam, mode="set_cell_ratio", api=str(ratio),
+                           exc=type(e).__name__), f"set_cell_ratio({ratio}) on a {term} terminal with {cell} px cells"
+                      f"{' ' + str(quirks) if quirks else ''}: {type(e).__name__}: {e}",
+                      grid_case(fam, term, cell, ratio, srcs[0], "FIT", DEFAULT_FRAME, "set_size", quirks))
+        return
     cls = family_class(L, fam)
     frames, ks, manuals = P["frames"], P["ks"], P["manuals"]
+    n0 = col.evaluations
     nsample = 0
     for src in srcs:
         geo = Geo(fam, term, cell, eff, src)
@@ -314,11 +359,11 @@ def run_grid_item(col, item, P):
             except Exception as e:
                 col.violation(dict(clause="exception", family=fam, mode=mode_name(mode), api=api,
                                    exc=type(e).__name__), f"{type(e).__name__}: {e}",
-                              grid_case(fam, term, cell, ratio, src, mode, frame, api))
+                              grid_case(fam, term, cell, ratio, src, mode, frame, api, quirks))
                 return None
             problems = judge(geo, mode, frame, got, ro, rf, col)
             if problems or extra:
-                report(col, grid_case(fam, term, cell, ratio, src, mode, frame, api), fam, mode, api,
+                report(col, grid_case(fam, term, cell, ratio, src, mode, frame, api, quirks), fam, mode, api,
                        problems + extra)
             if mode_name(mode) != "manual":
                 col.add_distinct(hash((geo.key, geo.frame(frame) if isinstance(mode, str) else None, mode, got))
@@ -346,15 +391,18 @@ def run_grid_item(col, item, P):
                 one(("manual", w, h), DEFAULT_FRAME, api)
         nsample += 1
         if nsample == 1:
-            col.sample(grid_case(fam, term, cell, ratio, src, "FIT", frames[0], "set_size"))
+            col.sample(grid_case(fam, term, cell, ratio, src, "FIT", frames[0], "set_size", quirks))
+    if quirks:
+        col.inc("grid_evaluations_in_unusual_environments", col.evaluations - n0)
 
 
 # ------------------------------------------------------------------------------------------ history clause
 class HistProgram:
     """Alphabet of one explicit-state search: a family, a source, a list of environments."""
 
-    def __init__(self, fam, src, envs, ratios, set_frames, ks, manuals, render):
+    def __init__(self, fam, src, envs, ratios, set_frames, ks, manuals, render, quirks=None):
         self.fam, self.src, self.envs, self.ratios = fam, tuple(src), [(tuple(t), tuple(c)) for t, c in envs], ratios
+        self.quirks = quirks
         ops = []
         for m in ("FIT", "AUTO", "ORIGINAL", "FIT_TO_WIDTH"):
             for fi in range(len(set_frames)):
@@ -384,7 +432,8 @@ class HistProgram:
 
     def describe(self):
         return dict(family=self.fam, src=list(self.src), envs=[[list(t), list(c)] for t, c in self.envs],
-                    ratios=self.ratios, set_frames=[list(f) for f in self.set_frames], n_ops=len(self.ops))
+                    ratios=self.ratios, set_frames=[list(f) for f in self.set_frames], n_ops=len(self.ops),
+                    **({"quirks": self.quirks} if self.quirks else {}))
 
 
 class HistState:
@@ -463,6 +512,7 @@ def hist_start(L, prog):
     st.env = 0
     term, cell = prog.envs[0]
     world.setup("kitty", term[0], term[1], cell=cell)
+    apply_quirks(L, prog.quirks)
     st.ratio = 0.5                 # model of the global cell-ratio setting: float | "DYNAMIC"
     # file-sourced, so that a render can be made to fail in the middle (see "render_fail")
     st.img = family_class(L, prog.fam).from_file(src_file(prog.src))
@@ -686,7 +736,7 @@ def prog_spec(prog):
 
 def make_prog(spec):
     p = HistProgram(spec["family"], spec["src"], spec["envs"], spec["ratios"], spec["set_frames"], spec["ks"],
-                    spec["manuals"], spec["render"])
+                    spec["manuals"], spec["render"], spec.get("quirks"))
     p._spec = spec
     return p
 
@@ -845,8 +895,29 @@ def params(tier):
         for cell in cells:
             for c in chunks:
                 items.append(("grid", ("graphics", term, cell, 0.5, c)))
+    # ---- unusual environments (on terminals that are not square in cells, every other source chunk)
+    q_terms = [t for t in terms if t in ((7, 5), (20, 10), (80, 24), (120, 40))]
+    q_cells = [(2, 3), (8, 16)] if quick else [(2, 3), (8, 16), (9, 12), (5, 3)]
+    q_stdout = [(80, 24), (5, 2)]          # what a redirected stdout / the shutil fallback would claim
+    q_chunks = chunks[::2]
+    swap = dict(swap=True)
+    for term in q_terms:
+        for cell in q_cells:
+            for c in q_chunks:
+                items.append(("grid", ("graphics", term, cell, 0.5, c, swap)))
+                items.append(("grid", ("text", term, cell, "DYNAMIC", c, swap)))
+    for term in q_terms[:2] if quick else q_terms:
+        for so in q_stdout:
+            if tuple(so) == tuple(term):
+                continue
+            for c in q_chunks:
+                items.append(("grid", ("graphics", term, (8, 16), 0.5, c, dict(stdout=list(so)))))
+                items.append(("grid", ("text", term, (8, 16), 0.5, c, dict(stdout=list(so)))))
     bounds = dict(sources=f"1..{n} x 1..{n} + {extra_src}", terminals=terms, cell_sizes=cells, cell_ratios=ratios,
                   auto_cell_ratio_cells=dyn_cells, frames=frames, given_dimensions=ks, manual=manuals,
+                  unusual_environments=dict(terminals=q_terms, cells=q_cells, stdout_sizes=q_stdout,
+                                            kinds=["swapped pixel report + enable_win_size_swap()",
+                                                   "stdout is not the terminal"], sources="every other chunk"),
                   apis=["set_size", "set_size(height=enum)", "size=enum (dynamic) -> rendered_size", "width=/height=/size=",
                         "constructor"])
     # ---- history programs
@@ -868,6 +939,13 @@ def params(tier):
         nops = len(make_prog(spec).ops)
         for i in range(nops):
             items.append(("unmerged", (spec, i, unmerged_depth)))
+    # the same searches in an unusual environment: swapped pixel report (workaround enabled) AND stdout not the
+    # terminal, both at once (merged search only)
+    for fam, so in (("graphics", [5, 2]), ("text", [80, 24])):
+        spec = dict(hist[0], family=fam, src=[7, 5], quirks=dict(swap=True, stdout=so),
+                    ratios=([0.5, "DYNAMIC", "FIXED"] if fam == "text" else [1.0]))
+        hist.append(spec)
+        items.append(("hist", spec))
     bounds["history"] = dict(programs=[make_prog(s).describe() for s in hist], unmerged_depth=unmerged_depth,
                              ops=[list(o) for o in make_prog(hist[0]).ops])
     # ---- urwid
